@@ -92,7 +92,8 @@ PROPS = {
     },
     "C07": {
         "lean": ["Seccomp.Proofs.C07"],
-        "streams": [policy_stream("defects", 3000, 60000, corpus="policy")],
+        "streams": [policy_stream("defects", 3000, 60000, corpus="policy"),
+                    policy_stream("limit", 48, 1200, seeds=2)],
         "trusted": ["Go panics are observed by recover() in the harness and reported as the reply PANIC (never produced by the model)"],
         "assumptions": ["the architecture-without-tables case is reached through arch.GetInfo (C12/C19), not through Policy.Assemble on this host"],
     },
